@@ -243,37 +243,122 @@ func (c *Ctx) visibilityRules(rule string) {
 			return t.IsCallTo(fnIsExternalPkg) && t.Args[1].Contains(fieldPkg)
 		})
 		exported := c.M(true, func(t *core.Term) bool { return t.IsCallTo("go/ast.IsExported") && t.Args[0].String() == leaf })
-		// … taken from the field whose name is the member's
+		// … taken from the field whose name is the member's – in this function, or in a same-package helper it hands the struct
+		// type to (`memberPkg(structType, name)`)
 		okField := false
 		namedExcluded := false
+		whyExcluded := ""
+		helperWithField := map[string]bool{}
+		scanFns := []*ssa.Function{fn}
 		for _, b := range fn.Blocks {
 			for _, in := range b.Instrs {
-				if v, isV := in.(ssa.Value); isV && fieldPkg(c.O.Of(v)) {
+				if ci, isCall := in.(ssa.CallInstruction); isCall {
+					if h := ci.Common().StaticCallee(); h != nil && h != fn && h.Blocks != nil && pkgOf(h) == pkgOf(fn) {
+						scanFns = append(scanFns, h)
+					}
+				}
+			}
+		}
+		// a condition in front of the field scan that is about the struct type's having a name or a package confines the scan
+		// to unnamed types (`pkg := util.PkgOf(t); if pkg == nil { scan }`, `if _, ok := t.(*types.Named); !ok { scan }`, a type
+		// switch with the scan in the *types.Struct arm)
+		confines := func(l core.Lit) string {
+			t, pos := c.Canon(l)
+			switch {
+			case t.Kind == "extract" && t.Name == "1" && t.Args[0].Kind == "typeassert,ok" && t.Args[0].Name == "*types.Named" && !pos:
+				return "the type is not a *types.Named"
+			case t.Kind == "extract" && t.Name == "1" && t.Args[0].Kind == "typeassert,ok" && t.Args[0].Name == "*types.Struct" && pos &&
+				!t.Args[0].Contains(func(x *core.Term) bool { return x.Kind == "invoke" && strings.HasSuffix(x.Name, ".Underlying") }):
+				return "the type itself (not its underlying type) is a *types.Struct"
+			case t.Kind == "typeswitch" || strings.HasPrefix(t.Kind, "typeassert") && t.Name == "*types.Struct" && pos &&
+				!t.Contains(func(x *core.Term) bool { return x.Kind == "invoke" && strings.HasSuffix(x.Name, ".Underlying") }):
+				return "the type itself is a *types.Struct"
+			case t.Kind == "binop" && t.Name == "==" && pos:
+				for i := 0; i < 2; i++ {
+					x, k := t.Args[i], t.Args[1-i]
+					if k.Is("const", "nil") && (x.IsCallTo(pUtil+"PkgOf") || (x.Kind == "call" && strings.HasSuffix(x.Name, ").Pkg")) || x.Kind == "local" || x.Kind == "phi") {
+						if x.IsCallTo(pUtil+"PkgOf") || (x.Kind == "call" && strings.HasSuffix(x.Name, ").Pkg")) {
+							return "the type has no package of its own (" + x.String() + " == nil)"
+						}
+					}
+				}
+			}
+			return ""
+		}
+		for _, sf := range scanFns {
+			sleaf, sstruct := leaf, structNode
+			fos, fpk := fieldOfStruct, fieldPkg
+			if sf != fn {
+				// in a helper the struct type and the name are its own parameters
+				sleaf = ""
+				for _, p := range sf.Params {
+					if p.Type().String() == "string" {
+						sleaf = "param:" + p.Name()
+					}
+				}
+				fos = func(s *core.Term) bool { return s.IsCallTo("(*go/types.Struct).Field") }
+				fpk = func(s *core.Term) bool {
+					return s.Kind == "call" && strings.HasSuffix(s.Name, ").Pkg") && s.Contains(fos) && !s.Contains(func(x *core.Term) bool { return x.IsCallTo("(*go/types.Named).Obj") })
+				}
+				_ = sstruct
+			}
+			for _, b := range sf.Blocks {
+				for _, in := range b.Instrs {
+					v, isV := in.(ssa.Value)
+					if !isV || !fpk(c.O.Of(v)) {
+						continue
+					}
 					if _, isCall := in.(*ssa.Call); !isCall {
 						continue
 					}
 					d := c.ReachOf(in)
-					if len(d) > 0 && d.Implies(c.M(false, func(t *core.Term) bool {
-						return t.Kind == "extract" && t.Name == "1" && t.Args[0].Kind == "typeassert,ok" && t.Args[0].Name == "*types.Named"
-					})) {
-						namedExcluded = true
+					for _, cj := range d {
+						for _, l := range cj {
+							if w := confines(l); w != "" {
+								namedExcluded = true
+								whyExcluded = w
+							}
+						}
 					}
-					okField = d.Implies(c.M(true, func(t *core.Term) bool {
+					okHere := len(d) > 0 && d.Implies(c.M(true, func(t *core.Term) bool {
 						if t.Kind != "binop" || t.Name != "==" {
 							return false
 						}
 						for i := 0; i < 2; i++ {
 							a, b := t.Args[i], t.Args[1-i]
-							if b.String() == leaf && a.Kind == "call" && strings.HasSuffix(a.Name, ").Name") && a.Contains(fieldOfStruct) {
+							if b.String() == sleaf && a.Kind == "call" && strings.HasSuffix(a.Name, ").Name") && a.Contains(fos) {
 								return true
 							}
 						}
 						return false
 					}))
+					if okHere {
+						okField = true
+						if sf != fn {
+							helperWithField[sf.String()] = true
+							helperWithField[core.FuncName(sf)] = true
+							// the call of the helper must not be confined either
+							for _, cs := range c.CallsIn(fn, sf.String(), false) {
+								for _, cj := range c.ReachOf(cs.Instr) {
+									for _, l := range cj {
+										if w := confines(l); w != "" {
+											namedExcluded = true
+											whyExcluded = w
+										}
+									}
+								}
+							}
+						}
+					}
 				}
 			}
 		}
-		r.Check(rule, FnKey(fn)+":package-of-the-field:named-types-too", c.Pos(fn.Pos()), okField && !namedExcluded, "the field's own package is consulted for unnamed struct types only: a type defined in this package on top of an imported struct (`type Record ext.Account`) has ext's fields, whose unexported members this package cannot touch")
+		if len(helperWithField) > 0 {
+			local = c.M(false, func(t *core.Term) bool {
+				return t.IsCallTo(fnIsExternalPkg) && (t.Args[1].Contains(fieldPkg) || t.Args[1].Contains(func(x *core.Term) bool { return x.Kind == "call" && helperWithField[x.Name] }))
+			})
+		}
+		r.Check(rule, FnKey(fn)+":package-of-the-field:named-types-too", c.Pos(fn.Pos()), okField && !namedExcluded, "the field's own package is consulted for unnamed struct types only ("+whyExcluded+"): a type defined in this package on top of an imported struct (`type Record ext.Account`) has ext's fields, whose unexported members this package cannot touch")
 		r.Check(rule, FnKey(fn)+":package-of-the-field", c.Pos(fn.Pos()), okField, "the member's visibility is not judged by the package of the struct field of that name ((*types.Var).Pkg() taken under Field(i).Name() == name): the members of an unnamed struct type written in another package (`Limit struct{ max int }` inside an imported type) count as visible")
 		notBlank := c.M(false, eqConst(func(t *core.Term) bool { return t.String() == leaf }, `"_"`))
 		r.Check(rule, FnKey(fn)+":true⇒not-blank", c.Pos(fn.Pos()), len(tr) > 0 && tr.Implies(notBlank), "the blank field `_` is called accessible: it can neither be read nor assigned (`dst._ = src._` does not compile); true-condition: "+tr.Describe(c.O))
